@@ -96,13 +96,24 @@ Proof. unfold sinv, init_at; cbn. destruct v; intuition. Qed.
 
 Lemma sinv_step v s e s' : sinv v s -> step v s e = Some s' -> sinv v s'.
 Proof.
-  destruct s as [q0 run0 rst0 stp0 sch0 clk0 lp0 ex0 cl0 exd0].
+  destruct s as [q0 run0 rst0 stp0 sch0 clk0 lp0 ex0 cl0 exd0 cw0 cr0].
   intros H Hs. destruct e; cbn in Hs.
   all: open_step Hs.
   all: unfold sinv in *; cbn in *.
   all: break_goal.
   all: peek_none.
   all: solve [intuition (subst; cbn in *; try congruence; try discriminate)].
+Qed.
+
+(* a further Close call is inside wg.Wait only if the stopped flag is set *)
+Definition winv (s : state) : Prop := cwait s = 0%nat \/ stopped s = true.
+
+Lemma winv_step v s e s' : winv s -> step v s e = Some s' -> winv s'.
+Proof.
+  destruct s as [q0 run0 rst0 stp0 sch0 clk0 lp0 ex0 cl0 exd0 cw0 cr0].
+  unfold winv. intros H Hs. destruct e; cbn in Hs.
+  all: open_step Hs; cbn in *; auto.
+  all: destruct H as [H|H]; try discriminate H; auto.
 Qed.
 
 (* ---- (2) what one step does to the queue and to the execution log ----------------------- *)
@@ -116,10 +127,12 @@ Lemma step_q_exec v s e s' : step v s e = Some s' ->
      loop s = LExecuting h /\ loop s' = LCallback h /\
      executed s' = (h, clock s) :: executed s).
 Proof.
-  destruct s as [q0 run0 rst0 stp0 sch0 clk0 lp0 ex0 cl0 exd0].
+  destruct s as [q0 run0 rst0 stp0 sch0 clk0 lp0 ex0 cl0 exd0 cw0 cr0].
   intros Hs. destruct e; cbn in Hs.
   - right; left. exists r, pick. open_step Hs; cbn; auto.
   - right; right; left. exists k, pick. open_step Hs; cbn; auto.
+  - left. open_step Hs; cbn; auto.
+  - left. open_step Hs; cbn; auto.
   - left. open_step Hs; cbn; auto.
   - left. open_step Hs; cbn; auto.
   - left. open_step Hs; cbn; auto.
@@ -174,7 +187,7 @@ Proof. exact I. Qed.
 
 Lemma tinv_step v s e s' : tinv s -> step v s e = Some s' -> tinv s'.
 Proof.
-  destruct s as [q0 run0 rst0 stp0 sch0 clk0 lp0 ex0 cl0 exd0].
+  destruct s as [q0 run0 rst0 stp0 sch0 clk0 lp0 ex0 cl0 exd0 cw0 cr0].
   intros H Hs. unfold tinv in *. destruct e; cbn in Hs.
   all: open_step Hs.
   all: cbn in *.
@@ -202,7 +215,7 @@ Proof. exact I. Qed.
 
 Lemma rinv_step v s e s' : sinv v s -> rinv s -> step v s e = Some s' -> rinv s'.
 Proof.
-  destruct s as [q0 run0 rst0 stp0 sch0 clk0 lp0 ex0 cl0 exd0].
+  destruct s as [q0 run0 rst0 stp0 sch0 clk0 lp0 ex0 cl0 exd0 cw0 cr0].
   intros HS H Hs. unfold rinv in *. destruct e; cbn in Hs.
   - (* Enqueue *)
     inv_some. unfold do_enqueue, process. cbn.
@@ -236,6 +249,8 @@ Proof.
   - open_step Hs; cbn in *; exact H.
   - open_step Hs; cbn in *; exact H.
   - open_step Hs; cbn in *; exact H.
+  - open_step Hs; cbn in *; exact H.
+  - open_step Hs; cbn in *; exact H.
   - open_step Hs; cbn in *; try exact I; try exact H; try (left; assumption).
     all: try (destruct H as [H|H]; [left; exact H | congruence]).
   - open_step Hs; cbn in *; exact I.
@@ -249,25 +264,26 @@ Lemma close_mono v s e s' : step v s e = Some s' ->
   (close s = CToken -> close s' = CToken \/ close s' = CReturned) /\
   (close s = CReturned -> close s' = CReturned).
 Proof.
-  destruct s as [q0 run0 rst0 stp0 sch0 clk0 lp0 ex0 cl0 exd0].
+  destruct s as [q0 run0 rst0 stp0 sch0 clk0 lp0 ex0 cl0 exd0 cw0 cr0].
   intros Hs. destruct e; cbn in Hs.
   all: open_step Hs; cbn; split; intros; subst; auto; try discriminate.
 Qed.
 
 (* ---- all of it at once ------------------------------------------------------------------ *)
 
-Definition ginv (v : variant) (s : state) : Prop := sinv v s /\ qinv s /\ tinv s /\ rinv s.
+Definition ginv (v : variant) (s : state) : Prop := sinv v s /\ qinv s /\ tinv s /\ rinv s /\ winv s.
 
 Lemma ginv_init v t : ginv v (init_at t).
-Proof. split; [apply sinv_init | split; [apply qinv_init | split; exact I]]. Qed.
+Proof. split; [apply sinv_init | split; [apply qinv_init | split; [exact I | split; [exact I | left; reflexivity]]]]. Qed.
 
 Lemma ginv_step v s e s' : ginv v s -> step v s e = Some s' -> ginv v s'.
 Proof.
-  intros [H1 [H2 [H3 H4]]] Hs. split; [|split; [|split]].
+  intros [H1 [H2 [H3 [H4 H5]]]] Hs. split; [|split; [|split; [|split]]].
   - eapply sinv_step; eassumption.
   - eapply qinv_step; eassumption.
   - eapply tinv_step; eassumption.
   - eapply rinv_step; eassumption.
+  - eapply winv_step; eassumption.
 Qed.
 
 Lemma ginv_run v t evs s : run v (init_at t) evs = Some s -> ginv v s.
